@@ -6,7 +6,7 @@ schedule-dependent order.  It never monkey-patches PyRTL.
   python c20_worker.py <job.json> <out.json>
 
 job = {'noise': int, 'textdir': path, 'designs': [spec, ...], 'mode': 'export'|'passes'|'readonly'}
-spec = {'key': str, 'seed': str, 'cls': 'plain'|'sani'|'zeros'|'both'|'memtie'|'samename'|'romonly'|'case'|'genlike'|'blif'|'iscas', ...}
+spec = {'key': str, 'seed': str, 'cls': 'plain'|'sani'|'zeros'|'both'|'memtie'|'samename'|'romonly'|'case'|'genlike'|'cond'|'blif'|'iscas', ...}
 
 Design generation is a pure function of spec['seed'] (random.Random seeded with a
 str is independent of the hash seed; gen_designs iterates lists only).  The
@@ -229,6 +229,8 @@ def build(spec, noise):
         _add_same_name_memories(d, rng)
     if cls == 'romonly':
         sweep = _add_swept_roms(d, rng)
+    if cls == 'cond':
+        _add_conditional_blocks(d, rng)
     # renaming through the public `name` property
     named = list(d.inputs) + list(d.outputs) + list(d.regs)
     inner = sorted([w for w in block.wirevector_set
@@ -319,6 +321,76 @@ def _add_shared_enable_ports(d, rng):
     o <<= m[gen_designs.fit(rng, rng.choice(pool), 3)]
     d.outputs.append(o)
     d.mems.append(m)
+
+
+def _add_conditional_blocks(d, rng):
+    """1-2 `with conditional_assignment(defaults=...)` blocks: 2-5 targets (wires, registers, sometimes a
+    memory write port) assigned under nested / alternative / otherwise conditions, with explicit
+    defaults for none, one or several of the assigned targets (and sometimes for an unassigned one)"""
+    pool = list(d.inputs) + list(d.regs)
+
+    def bit():
+        w = rng.choice(pool)
+        return w[rng.randrange(len(w))]
+
+    def val(width):
+        if rng.random() < 0.35:
+            return rng.getrandbits(width)
+        return gen_designs.fit(rng, rng.choice(pool), width)
+
+    for b in range(rng.randint(1, 2)):
+        targets = []
+        for k in range(rng.randint(2, 5)):
+            w = rng.choice([1, 2, 3, 4, 8])
+            if rng.random() < 0.35:
+                r = pyrtl.Register(w, 'cr%d_%d' % (b, k))
+                o = pyrtl.Output(w, 'cro%d_%d' % (b, k))
+                o <<= r
+                d.regs.append(r)
+                targets.append(('reg', r, w))
+            else:
+                t = pyrtl.WireVector(w, 'cw%d_%d' % (b, k))
+                o = pyrtl.Output(w, 'co%d_%d' % (b, k))
+                o <<= t
+                targets.append(('wire', t, w))
+            d.outputs.append(o)
+        mem = None
+        if rng.random() < 0.3:
+            mem = pyrtl.MemBlock(bitwidth=4, addrwidth=2, name='cmem%d' % b, asynchronous=True)
+            o = pyrtl.Output(4, 'cmo%d' % b)
+            o <<= mem[gen_designs.fit(rng, rng.choice(pool), 2)]
+            d.outputs.append(o)
+            d.mems.append(mem)
+        # which targets get an explicit default: none / one / several / all
+        k = rng.choice([0, 1, 2, 2, 3, len(targets), len(targets)])
+        defaulted = rng.sample(targets, min(k, len(targets)))
+        defaults = {t: val(w) for _, t, w in defaulted}
+        c1, c2, c3 = bit(), bit(), bit()
+        plan = {i: rng.sample(['c1', 'c1c3', 'c2', 'otherwise'], rng.randint(1, 3)) for i in range(len(targets))}
+        for i in plan:      # c1 and c1&c3 on one target would conflict
+            if 'c1' in plan[i] and 'c1c3' in plan[i]:
+                plan[i].remove('c1c3')
+        memslot = rng.choice(['c1', 'c2', 'otherwise'])
+
+        def assign(slot):
+            for i, (kind, t, w) in enumerate(targets):
+                if slot in plan[i]:
+                    if kind == 'reg':
+                        t.next |= val(w)
+                    else:
+                        t |= val(w)
+            if mem is not None and slot == memslot:
+                mem[gen_designs.fit(rng, rng.choice(pool), 2)] |= val(4)
+
+        with pyrtl.conditional_assignment(defaults=defaults):
+            with c1:
+                assign('c1')
+                with c3:
+                    assign('c1c3')
+            with c2:
+                assign('c2')
+            with pyrtl.otherwise:
+                assign('otherwise')
 
 
 def _rom_data(rng, kind, aw, bw, partial_prob=0.5):
